@@ -29,17 +29,18 @@ def cnum(c):
     return 23 if c == "X" else int(c)
 
 
-def gen(rng, tier, no_repl_only=False):
+def gen(rng, tier, no_repl_only=False, region_p=0.25):
     n = 120 if tier == "quick" else 3000
     for t in range(n):
-        pops = ["CEU", "YRI", "AMR"][: rng.randint(2, 3)]
+        # population labels: the classic equal-length ones, and labels of unequal length in every lexicographic arrangement
+        pops = list(rng.choice([["CEU", "YRI", "AMR"], ["CEU", "YRI", "AMR"], ["European", "Yoruba", "Han"], ["P1", "POP_TWO", "Z"], ["Longest_name", "mid", "b"]]))[: rng.randint(2, 3)]
         nsim = rng.randint(1, 3)
         chroms = sorted(rng.sample(["1", "2", "3", "X"], rng.randint(1, 3)), key=cnum)
         no_repl = no_repl_only or rng.random() < 0.3
         per_pop = rng.randint(nsim if no_repl else 1, nsim + 2) if no_repl else rng.randint(1, 3)
         refs, info = [], []
         for p in pops + ["EAS"]:
-            for i in range(per_pop if p != "EAS" else 1):
+            for i in range(per_pop if p != "EAS" else 1):  # EAS: a population of the sample-info file the model never uses
                 refs.append(f"{p}{i}")
                 info.append([f"{p}{i}", p])
         rng.shuffle(refs)
@@ -61,7 +62,7 @@ def gen(rng, tier, no_repl_only=False):
             others = [c for c in ["1", "2", "3", "X"] if c not in chroms]
             ref_chroms = sorted(set(chroms) | set(rng.sample(others, rng.randint(1, len(others)))), key=cnum)
         prefix = "chr" if rng.random() < 0.3 else ""
-        want_region = rng.random() < 0.25
+        want_region = rng.random() < region_p
         if want_region:
             prefix = ""  # --region names the contig without prefix (validate_params only admits 1..22,X): a prefixed
             # panel cannot be combined with --region at all (limitation noted in DESIGN.md, not generated)
@@ -74,13 +75,63 @@ def gen(rng, tier, no_repl_only=False):
         if want_region:
             c = rng.choice(chroms)
             a = rng.choice([1, 100, 150, 201])
-            region = {"chr": c, "start": a, "end": rng.choice([a, 300, 450, 100000])}
+            region = {"chr": c, "start": a, "end": rng.choice([a, 300, 450, 900, 100000, 100000])}
         fmt_in = rng.choice(["vcf.gz", "vcf.gz", "pgen"])
         fmt_out = rng.choice([".vcf", ".vcf.gz", ".bcf", ".pgen"])
         case = {"pops": pops, "nsim": nsim, "chroms": [region["chr"]] if region else chroms, "refs": refs, "info": info, "haps": haps, "variants": variants, "prefix": prefix, "region": region, "pop_field": rng.random() < 0.5, "sample_field": rng.random() < 0.5, "no_repl": no_repl, "fmt_in": fmt_in, "fmt_out": fmt_out, "seed": rng.randrange(2**31)}
         if not kept_variants(case):
             continue  # a restriction that leaves no reference variant at all (output_vcf indexes variant 0): not generated
         yield case
+
+
+_sim_haps = {}
+SIM_MARKERS = [100, 200, 300, 400, 500]
+
+
+def H(case):
+    """the breakpoints of a case: hand-built ones are part of the case, simulated ones are what the real simulate_gt
+    returned for the case's model/map/seed (recorded when the case was run)"""
+    if case.get("haps") is not None:
+        return case["haps"]
+    return _sim_haps.get(C.jdump(case)) or []
+
+
+def gen_sim(rng, tier):
+    """cases whose breakpoints come from the real simulate_gt (multi-generation model, steep map, optional region)"""
+    n = 50 if tier == "quick" else 1200
+    for case in gen(rng, "thorough", region_p=0.5):
+        model = SD.gen_model(rng, max_lines=rng.randint(2, 4), npops=len(case["pops"]), nsamples=case["nsim"])
+        case["haps"] = None
+        case["sim"] = {"lines": [[g, fr] for g, fr in model[2]], "slope": rng.choice([5, 40, 120]), "popsize": rng.choice([6, 10]), "seed": rng.randrange(2**31)}
+        case["no_repl"] = False if rng.random() < 0.8 else case["no_repl"]
+        yield case
+        n -= 1
+        if n <= 0:
+            return
+
+
+def simulate_bps(case, d):
+    import haptools.sim_genotype as sg
+
+    SD.write_model(d / "model.dat", (case["nsim"], case["pops"], [(g, fr) for g, fr in case["sim"]["lines"]]))
+    md = d / "maps"
+    md.mkdir()
+    for c in case["chroms"]:
+        with open(md / f"genetic_map_chr{c}.map", "w") as f:
+            for i, bp in enumerate(SIM_MARKERS):
+                f.write(f"{c} rs{bp} {i * case['sim']['slope']} {bp}\n")
+    n, pop_dict, final = sg.simulate_gt(str(d / "model.dat"), str(md), case["chroms"], case["region"], case["sim"]["popsize"], SD.silent_log(), case["sim"]["seed"])
+    bps = sg.write_breakpoints(n, pop_dict, final, str(d / "out"), SD.silent_log())
+    # the accompanying .bp file, parsed independently, is what the oracle and the model compare the genotypes with
+    haps = []
+    for line in open(d / "out.bp"):
+        f = line.rstrip("\n").split("\t")
+        if len(f) == 1:
+            assert f[0] == f"Sample_{len(haps) // 2 + 1}_{len(haps) % 2 + 1}", f
+            haps.append([])
+        else:
+            haps[-1].append([case["pops"].index(f[0]) + 1, int(f[1]), int(f[2]), 0])
+    return bps, haps
 
 
 def run_output_vcf(case):
@@ -106,15 +157,20 @@ def run_output_vcf(case):
         GF.write_vcf_text(d / "ref.vcf", refs, variants, data, contigs=contigs)
         GF.compress_index(d / "ref.vcf", d / "ref.vcf.gz")
         ref_file = str(d / "ref.vcf.gz")
-    with open(d / "model.dat", "w") as f:
-        f.write("\t".join([str(case["nsim"]), "Admixed", *case["pops"]]) + "\n")
-        f.write("\t".join(["1", "0"] + [str(1 / len(case["pops"]))] * len(case["pops"])) + "\n")
     with open(d / "info.tab", "w") as f:
         for s, p in case["info"]:
             f.write(f"{s}\t{p}\n")
-    bps = [[S(p, c, e, float(m)) for p, c, e, m in h] for h in case["haps"]]
-    if case["region"]:
-        bps = [[s for s in h if s.get_chrom() == cnum(case["region"]["chr"])] for h in bps]
+    if case.get("sim"):
+        # the real pipeline: simulate_gt's own breakpoint objects go straight into output_vcf
+        bps, haps = simulate_bps(case, d)
+        _sim_haps[C.jdump(case)] = haps
+    else:
+        with open(d / "model.dat", "w") as f:
+            f.write("\t".join([str(case["nsim"]), "Admixed", *case["pops"]]) + "\n")
+            f.write("\t".join(["1", "0"] + [str(1 / len(case["pops"]))] * len(case["pops"])) + "\n")
+        bps = [[S(p, c, e, float(m)) for p, c, e, m in h] for h in case["haps"]]
+        if case["region"]:
+            bps = [[s for s in h if s.get_chrom() == cnum(case["region"]["chr"])] for h in bps]
     out = str(d / ("out" + case["fmt_out"]))
     # record the per-block choices (reference sample, strand) = the random tape of this run
     rec = []
@@ -262,7 +318,10 @@ def oracle(case, obs):
             return None  # the panel ran out: refusing is the required behaviour (C14)
         return f"output_vcf raised {obs}"
     kv = kept_variants(case)
-    nsim = len(case["haps"]) // 2
+    haps = H(case)
+    nsim = len(haps) // 2
+    if case.get("sim") and nsim != case["nsim"]:
+        return f"simulate_gt returned {len(haps)} haplotypes for {case['nsim']} samples"
     if obs["samples"] != [f"Sample_{i+1}" for i in range(nsim)]:
         return f"output samples {obs['samples']}"
     nal = 2 * len(case["refs"])
@@ -283,7 +342,7 @@ def oracle(case, obs):
                     return f"genotype {a} at {v[1]}:{v[2]} sample {s} strand {k} is not an allele of any reference haplotype (stale or uninitialised value)"
                 a = (a - shift) % nal  # the reference haplotype carrying that allele at this variant
                 src, st = case["refs"][a // 2], a % 2
-                lab = label_at(case["haps"][2 * s + k], c, v[2])
+                lab = label_at(haps[2 * s + k], c, v[2])
                 if lab is None:
                     return f"breakpoints give no label at {v[1]}:{v[2]}"
                 if popof[src] != case["pops"][lab - 1]:
@@ -293,7 +352,7 @@ def oracle(case, obs):
                 if obs["sample"] is not None and obs["sample"][j][s][k] != src:
                     return f"SAMPLE field {obs['sample'][j][s][k]} at {v[1]}:{v[2]} but the allele comes from {src}"
                 # one source per block
-                blk = next(i for i, sg_ in enumerate(x for x in case["haps"][2 * s + k] if x[1] == c) if sg_[2] >= v[2])
+                blk = next(i for i, sg_ in enumerate(x for x in haps[2 * s + k] if x[1] == c) if sg_[2] >= v[2])
                 key = (s, k, c, blk)
                 if used.setdefault(key, a) != a:
                     return f"Sample_{s+1} strand {k+1} chr{c} block {blk}: variants copied from two reference haplotypes ({used[key]} and {a})"
@@ -325,11 +384,19 @@ def describe(case, obs):
     want = {case["prefix"] + c for c in case["chroms"]}
     if any(v[1] not in want for v in case["variants"]):
         tags.append("reference-has-more-chromosomes")
-    ends = {s[2] for h in case["haps"] for s in h}
+    ends = {s[2] for h in H(case) for s in h}
     if any(v[2] in ends for v in case["variants"]):
         tags.append("variant-on-block-end")
     if isinstance(obs, dict) and "error" in obs:
         tags.append("refused")
+    if case.get("sim"):
+        tags.append(f"simulated:generation-lines={len(case['sim']['lines'])}")
+        if any(len([x for x in h if x[1] == h[0][1]]) > 1 for h in H(case) if h):
+            tags.append("simulated:recombined")
+    if case["region"] and case["region"]["end"] > 500 and any(v[2] > 500 and v[2] <= case["region"]["end"] for v in kept_variants(case)):
+        tags.append("region-end-and-variants-beyond-last-map-coordinate")
+    if len({len(p) for p in case["pops"]}) > 1:
+        tags.append("population-labels-of-unequal-length")
     return tags
 
 
@@ -353,8 +420,23 @@ CHECK = Check(
             nontrivial=lambda c, o: C.jdump(c) if isinstance(o, dict) and "gts" in o and len(o["gts"]) > 1 else None,
             rule="hand-built breakpoint sets (1-3 simulated samples, 1-3 chromosomes incl. X, 1-4 blocks per chromosome with ends on a grid, closed by the sentinel) over identifiable panels (reference haplotype (i,k) carries the unique allele index (2i+k+j) mod 2n at the j-th multi-allelic variant, so every output genotype identifies its source haplotype and the reference column it was read from), variants on block ends, ends+1, position 1 and far beyond the map, with/without chr prefix, panels holding more chromosomes than requested, samples of unused populations, optional region, all four POP/SAMPLE flag combinations, with and without replacement, VCF.gz or PGEN input, VCF / VCF.gz / BCF / PGEN output read back with pysam / pgenlib; the recorded per-block choices are replayed into the Lean loop model and the whole genotype (and POP) matrix is compared",
         ),
+        Section(
+            name="simulated_breakpoints",
+            theorems=["C03.assign_eq_firstGE", "C03.cell_from_panel", "C03.block_single_source"],
+            gen=gen_sim,
+            impl=impl_wrap,
+            model_req=model_req2,
+            model_obs=model_obs,
+            equal=equal,
+            oracle=oracle,
+            describe=describe,
+            setup=setup,
+            teardown=teardown,
+            nontrivial=lambda c, o: C.jdump(c) if isinstance(o, dict) and "gts" in o and len(o["gts"]) > 1 else None,
+            rule="the same panels, flags, regions and formats, but the breakpoints are those the real simulate_gt returns (2-4 generation lines incl. pulses, map with markers at 100..500 bp and 5/40/120 cM per marker so that tracts recombine, region ends before, inside and far beyond the last map coordinate) written by the real write_breakpoints, whose returned objects are handed to output_vcf (exactly the CLI's pipeline) while the .bp file is parsed independently; the oracle reads every output allele back to its reference haplotype and compares its population with the label the simulated breakpoints give that position",
+        ),
     ],
     trusted=["numpy searchsorted/insert/diff/repeat contracts (exercised)", "pysam / pgenlib writing what they are given; cyvcf2 / pgenlib reading the panel (C07/C08)", "_convert_haplotype's recorded outputs are the tape of the run (its choices are checked against the sample-info populations by the oracle)"],
     assumptions=["the reference panel is sorted by chromosome in the order of --chroms and by position; --chroms sorted ascending, X last"],
-    anchors=[("haptools/sim_genotype.py", ["output_vcf", "_convert_haplotype", "_find_random_sample", "_find_coord"]), ("haptools/transform.py", ["GenotypesAncestry.write"])],
+    anchors=[("haptools/sim_genotype.py", ["output_vcf", "_convert_haplotype", "_find_random_sample", "_find_coord", "_prepare_coords"]), ("haptools/transform.py", ["GenotypesAncestry.write"])],
 )
